@@ -498,10 +498,31 @@ func ruleF2(c *Ctx) {
 		c.anchorMissing("F2", "codegen.handleRESB")
 	} else {
 		okMake := false
+		nr := 0
 		for _, b := range g.Blocks {
 			ret, isRet := b.Instrs[len(b.Instrs)-1].(*ssa.Return)
 			if !isRet {
 				continue
+			}
+			// every successful return hands back freshly made zeros (not a window of a shared buffer,
+			// which later appends would write into)
+			success := false
+			if len(ret.Results) == 2 {
+				if k, isK := ret.Results[1].(*ssa.Const); isK && k.IsNil() {
+					success = true
+				}
+			} else if len(ret.Results) == 1 {
+				// a single []byte result: nil is the failure value
+				if k, isK := ret.Results[0].(*ssa.Const); !isK || !k.IsNil() {
+					success = true
+				}
+			}
+			if success {
+				{
+					nr++
+					_, fresh := ret.Results[0].(*ssa.MakeSlice)
+					c.check(fresh, "F2", fmt.Sprintf("handleRESB|success return#%d is a fresh allocation", nr), c.L.Pos(retPos(ret)), "RESB must return make([]byte, n): a slice of a longer-lived buffer is shared with whatever appends to the result and is no longer zero the next time")
+				}
 			}
 			if ms, ok := ret.Results[0].(*ssa.MakeSlice); ok {
 				// len derives from ParseInt(args[0], 10, …)
